@@ -8,12 +8,15 @@ ROOT="$(cd "$(dirname "${BASH_SOURCE[0]}")/.." && pwd)"
 OUT="${1:-/tmp/verif-cov}"
 BIN=$(dirname "$(rustc +nightly --print target-libdir)")/bin
 mkdir -p "$OUT/prof"
+# instrumented build scripts write a profile where they run (the package directory, i.e. inside /repo) unless told otherwise
+export LLVM_PROFILE_FILE="$OUT/prof/build-%p-%m.profraw"
 ( cd "$ROOT/harness" && CARGO_NET_OFFLINE=true CARGO_TARGET_DIR="$OUT/target" RUSTFLAGS="--cfg simple_dns_verif -Cinstrument-coverage" cargo +nightly build --offline --profile verif 2>"$OUT/build.log" ) || { tail "$OUT/build.log"; exit 2; }
 export VERIF_ROOT="$ROOT" VERIF_REPO=/repo LLVM_PROFILE_FILE="$OUT/prof/%p-%m.profraw"
 for i in 01 02 03 04 05 06 07 08 09 10 11 12 13 14 15 16 17 18 19 20; do
   "$OUT/target/verif/verif-harness" run C$i --tier quick 2>&1 | grep -E "verdict=|VIOLATION"
 done
 git -C "$ROOT" checkout -- evidence
+rm -f "$OUT"/prof/build-*.profraw
 "$BIN/llvm-profdata" merge -sparse "$OUT"/prof/*.profraw -o "$OUT/all.profdata"
 "$BIN/llvm-cov" report "$OUT/target/verif/verif-harness" -instr-profile="$OUT/all.profdata" --sources /repo/simple-dns/src /repo/simple-mdns/src 2>/dev/null \
   | awk 'NR>2 {printf "%-60s lines %5s missed %4s  %s\n", $1, $8, $9, $10}' | tee "$OUT/report.txt"
